@@ -320,8 +320,11 @@ def layer_escaped_semicolons(ctx, n):
         vals = [rng.choice(VALUES) for _ in range(k)]
         names = ['n%d' % i for i in range(k)]
         stmt = rng.choice(['define', 'attributes'])
-        sep = rng.choice(['; ', ';', ';  ', ';\n   '])      # (white space in front of a separator would belong to the string: value)
+        sep = rng.choice(['; ', ';', ';  ', ';\n   '])
         enc = lambda v: v.replace(';', ';;').replace('&', '&amp;')
+        if rng.random() < .3:
+            # a string: expression is the rest of the part as written: white space in front of the separator belongs to it
+            vals = [v + rng.choice([' ', '  ', '\t']) for v in vals]
         parts = ['%s string:%s' % (nm, enc(v)) for nm, v in zip(names, vals)]
         lst = sep.join(parts) + rng.choice(['', ';', '; '])
         if stmt == 'define':
